@@ -11,6 +11,7 @@ RULE = ("Listings L from the real objdump (random ELF64/ELF32 objects), from tes
         "mnemonic of operand-less instructions), whole-line comments (also ones that quote an instruction row), blank lines, section headers, the file-format header, 0-12 leading spaces, "
         "raw-byte column content / byte count 1-7 / padding width (column present and well-formed), byte-continuation lines "
         "added/removed. Edits use R-line's segmentation: only a trailing ' <...>' and a trailing ' # ...' segment are touched. "
+        "A quarter of the pairs is compared under a rule that configures valid_addr_range, a fifth after a run WITH the option on L. "
         "Metamorphic oracle on the real code: stream(L) == stream(L') and the address lists of 3 rules drawn from L's "
         "mnemonics/operands are equal. Non-trivial = at least one edit changed the text and L has >= 3 instructions; "
         "distinct = (L hash, edit script).")
@@ -145,11 +146,22 @@ def judge(ctx, ws, text, origin):
         return
     text2, edits = edit_listing(ctx.rng, text)
     p1, p2 = ws.write("a.s", text), ws.write("b.s", text2.encode())      # bytes: keep the chosen line endings as they are
-    r1 = objd.real_stream(ws, p1)
+    # the rule that asks for the stream sometimes configures valid_addr_range (a second observer in the chain), and sometimes a
+    # run WITH the option on L precedes the plain comparison (nothing of that run may stick to the lines of L)
+    mode = ctx.rng.random() if origin != "syn" else 1.0     # synthetic listings give branch mnemonics arbitrary operands, which the option rejects
+    RANGE = "config:\n  valid_addr_range:\n    min: '0'\n    max: 'ffffffffffffffff'\npattern:\n  - zzzzzz\n"
+    rule_text = RANGE if mode < 0.25 else "pattern:\n  - zzzzzz\n"
+    if 0.25 <= mode < 0.45:
+        pre = objd.real_stream(ws, p1, rule_text=RANGE)
+        ctx.ran()
+        ctx.event("range_run_preceding_plain_comparison" if pre[0] == "ok" else "range_run_raised")
+    elif mode < 0.25:
+        ctx.event("pairs_compared_under_valid_addr_range")
+    r1 = objd.real_stream(ws, p1, rule_text=rule_text)
     if r1[0] != "ok":
-        ctx.inconc("parser raised on the base listing (left to C08)")
+        ctx.inconc("parser raised on the base listing (left to C08)" if mode >= 0.25 else "run with valid_addr_range raised (left to C18)")
         return
-    r2 = objd.real_stream(ws, p2)
+    r2 = objd.real_stream(ws, p2, rule_text=rule_text)
     ctx.ran(2)
     case = {"origin": origin, "listing": text[:60000], "edited": text2[:60000], "edits": sorted(set(edits))}
     ctx.case((hash(text), tuple(edits)), text != text2 and len(rinsts) >= 3, stratum=origin.split(":")[0])
